@@ -353,16 +353,7 @@ func (e *Exec) stepUpdateById(op *Op, mc *model.Coll) {
 		case outFailed, outCapacity:
 			e.noEffect(before, what, nil)
 		case outCrashed:
-			e.restartAfterCrash()
-			if e.V != nil {
-				return
-			}
-			if got, _, rerr := e.readColl(op.Coll); rerr == nil && e.V == nil {
-				if _, ok := got[op.ID]; !ok {
-					delete(mc.Docs, op.ID)
-				}
-			}
-			e.compareAllAs([]string{"C05"}, "C05/crash-atomicity", what+" (crashed)")
+			e.settleCrash(op, func() { delete(mc.Docs, op.ID) })
 		}
 		return
 	}
@@ -870,21 +861,12 @@ func (e *Exec) stepBulkNil(op *Op, mc *model.Coll, props []string, feats map[str
 	case outFailed, outCapacity:
 		e.noEffect(before, what, nil)
 	case outCrashed:
-		// either nothing happened or every matched document is gone or kept: settle by reading
-		e.restartAfterCrash()
-		if e.V != nil {
-			return
-		}
-		got, _, rerr := e.readColl(q.Coll)
-		if e.V != nil || rerr != nil {
-			return
-		}
-		for _, id := range matching {
-			if _, ok := got[id]; !ok {
+		// entirely absent, or entirely present in the shipped meaning of nil (removed)
+		e.settleCrash(op, func() {
+			for _, id := range matching {
 				delete(mc.Docs, id)
 			}
-		}
-		e.compareAllAs([]string{"C05"}, "C05/crash-atomicity", what+" (crashed)")
+		})
 	}
 }
 
